@@ -25,7 +25,9 @@ Optional fields: `gsnew … boot=1` - the list argument is what the real `GetGua
 (main.go's start-up), so the sequence is one the callers produce whatever the list looks like; `gsupd … src=fetch` - the input is what
 the real `GetGuardianSetsFromChain(current+1)` returned (the ticker's body); `gsget`/`push … cur0=<int>` - the lookup read
 `current = cur0`, was held at the chain while other lookups / fetches completed, and its batch arrived in the state of the previous
-line (`getGuardianSetStale` / `pushStale`: overlapping and repeated fetches).
+line (`getGuardianSetStale` / `pushStale`: overlapping and repeated fetches).  A lookup the fake node failed (RPC error, HTTP 503,
+undecodable / empty result: `<i>:err` in the log; endpoint not dialled: `dial=0`) is `fetchRange = none` in the model; the Spec of a
+`push` line never looks at what the lookup returned: `named=` is the key list the chain holds for the index the VAA carries.
 
 set = `idx:keys`, keys = `nil` | `-` | `hex,hex`; sets = `-` | `set;set`; log = `-` | entries `c:<n>`, `c:err`, `<i>:<keys>`, `<i>:err`.
 -/
@@ -124,6 +126,7 @@ structure St where
   nBoot : Nat := 0
   nStale : Nat := 0
   nFar : Nat := 0
+  nLookupFailed : Nat := 0
 
 def showState (g : GS) : String := s!"cur={g.cur} idx=[{showIdx g.list}]"
 
@@ -344,8 +347,11 @@ def step (st : St) (line : String) : St × List String :=
       let chain := chainOf log
       let cur0 := (kvInt rest "cur0").getD st.g.cur
       let o := pushStale st.g cur0 v recover dial chain hit room
+      -- the named set is not held and the on-demand lookup could not be served (no dial / one request of the range failed)
+      let lookupFailed := (v.gsIndex : Int) > cur0 && (!dial || (logGets log).any fun e => e.2.isNone)
       let st' := { st with g := ig, n := st.n + 1, nStale := st.nStale + (if (kvInt rest "cur0").isSome then 1 else 0),
-                           nFar := st.nFar + (if (v.gsIndex : Int) > st.g.cur + 8 then 1 else 0) }
+                           nFar := st.nFar + (if (v.gsIndex : Int) > st.g.cur + 8 then 1 else 0),
+                           nLookupFailed := st.nLookupFailed + (if lookupFailed then 1 else 0) }
       let qsame := b01 (kv rest "qsame") == some true
       let keysOk := b01 (kv rest "getkey") != some false && b01 (kv rest "setkey") != some false
       -- Spec, on the implementation's own behaviour
@@ -386,7 +392,8 @@ def fin (st : St) : List String :=
    s!"stat get_err {st.nGetErr}", s!"stat panics_agreed {st.nPanic}", s!"stat upd_append {st.nUpdAppend}", s!"stat upd_noop {st.nUpdNoop}",
    s!"stat upd_err {st.nUpdErr}", s!"stat push_queued {st.nQueued}", s!"stat push_dup {st.nDup}", s!"stat push_full {st.nFull}",
    s!"stat push_invalid {st.nInvalid}", s!"stat verify_nil {st.nVfyOk}", s!"stat verify_rejected {st.nVfyRej}",
-   s!"stat boot_sequences {st.nBoot}", s!"stat overtaken_lookups {st.nStale}", s!"stat far_ahead_lookups {st.nFar}"]
+   s!"stat boot_sequences {st.nBoot}", s!"stat overtaken_lookups {st.nStale}", s!"stat far_ahead_lookups {st.nFar}",
+   s!"stat push_lookup_failed {st.nLookupFailed}"]
 
 def run (h : IO.FS.Stream) : IO Unit := loop h ({} : St) step fin
 
